@@ -1,358 +1,7 @@
-import DesyncModel.Inv.Holder
-
-namespace Desync
-open Gen
-
-theorem hpc_goto {s X : State} {a : Nat} {pc' : Pc}
-    (hX : ∀ b q, (X.pcAt b).holds q = (s.pcAt b).holds q) (ha : a < X.acts.length) :
-    ∀ b q, ((X.goto a pc').pcAt b).holds q = if a = b then pc'.holds q else (s.pcAt b).holds q := by
-  intro b q
-  rw [pcAt_goto]
-  by_cases hab : a = b
-  · subst hab; simp [ha]
-  · simp [hab, hX]
-
-theorem pcAt_of {s : State} {a : Nat} {act : Act} (ha : s.acts[a]? = some act) : s.pcAt a = act.pc := by
-  simp [State.pcAt, ha]
-
-/-- table facts used below: a table applied by a non-holder never takes a queue out of the held states -/
-theorem wakeQueue_held (st : QState) : st.held = true → (wakeQueue st).1.held = true := by
-  cases st <;> simp [wakeQueue, QState.held]
-theorem wakeThread_held (st : QState) : st.held = true → (wakeThread st).held = true := by
-  cases st <;> simp [wakeThread, QState.held]
-theorem desyncPush_held (st : QState) : st.held = true → (desyncPush st).1.held = true := by
-  cases st <;> simp [desyncPush, QState.held]
-theorem reschedule_held (st : QState) (e : Bool) : st.held = true → (reschedule st e).1.held = true := by
-  cases st <;> cases e <;> simp [reschedule, QState.held]
-
-end Desync
-
-namespace Desync
-open Gen
-
-theorem StatesOk.setQ {s X : State} {q : Nat} {v v' : JobQ} (hq : s.qs[q]? = some v) (hX : X.qs = s.qs.set q v')
-    (h : v.state.held = true → v'.state.held = true) : StatesOk s X := by
-  intro q' w hw
-  rw [hX, List.getElem?_set] at hw
-  by_cases hqq : q = q'
-  · subst hqq
-    have hlt : q < s.qs.length := lt_of_getElem?_some hq
-    simp only [↓reduceIte, hlt] at hw
-    cases hw
-    exact ⟨v, hq, h⟩
-  · simp only [hqq, ↓reduceIte] at hw
-    exact ⟨w, hw, id⟩
-
-@[simp] theorem pcAt_setWoken (s : State) (a : Nat) (b : Bool) (c : Nat) : (s.setWoken a b).pcAt c = s.pcAt c := by
-  unfold State.setWoken
-  split
-  · next v hv =>
-    rw [pcAt_setAct]
-    by_cases hac : a = c
-    · subst hac; simp [State.pcAt, hv]
-    · simp [hac]
-  · rfl
-
-@[simp] theorem pcAt_notify (s : State) (w c : Nat) : (s.notify w).pcAt c = s.pcAt c := by
-  unfold State.notify
-  split
-  · next v hv =>
-    split
-    · rw [pcAt_setAct]
-      by_cases hwc : w = c
-      · subst hwc; simp [State.pcAt, hv]
-      · simp [hwc]
-    · rfl
-  · rfl
-
-@[simp] theorem pcAt_setPThr (s : State) (p : Nat) (v : PThr) (c : Nat) : (s.setPThr p v).pcAt c = s.pcAt c := rfl
-@[simp] theorem pcAt_setFut (s : State) (f : Nat) (v : Fut) (c : Nat) : (s.setFut f v).pcAt c = s.pcAt c := rfl
-@[simp] theorem pcAt_setGate (s : State) (g : Nat) (v : Gate) (c : Nat) : (s.setGate g v).pcAt c = s.pcAt c := rfl
-@[simp] theorem pcAt_takeReady (s : State) (w a c : Nat) : (s.takeReady w a).pcAt c = s.pcAt c := rfl
-@[simp] theorem pcAt_dropReady (s : State) (w c : Nat) : (s.dropReady w).pcAt c = s.pcAt c := rfl
-@[simp] theorem pcAt_setJobPh (s : State) (j : Nat) (ph : Phase) (c : Nat) : (s.setJobPh j ph).pcAt c = s.pcAt c := by
-  simp [State.pcAt]
-@[simp] theorem pcAt_pushFront (s : State) (q j c : Nat) : (s.pushFront q j).pcAt c = s.pcAt c := by simp [State.pcAt]
-@[simp] theorem pcAt_pushBack (s : State) (q j c : Nat) : (s.pushBack q j).pcAt c = s.pcAt c := by simp [State.pcAt]
-@[simp] theorem pcAt_setQState (s : State) (q : Nat) (st : QState) (c : Nat) : (s.setQState q st).pcAt c = s.pcAt c := by simp [State.pcAt]
-
-@[simp] theorem acts_length_setWoken (s : State) (a : Nat) (b : Bool) : (s.setWoken a b).acts.length = s.acts.length := by
-  unfold State.setWoken; split <;> simp [State.setAct]
-@[simp] theorem acts_length_notify (s : State) (w : Nat) : (s.notify w).acts.length = s.acts.length := by
-  unfold State.notify; split <;> (try split) <;> simp [State.setAct]
-
-end Desync
-
-namespace Desync
-open Gen
-
-theorem goto_eq_setAct {X : State} {a : Nat} {act : Act} (pc : Pc) (h : X.acts[a]? = some act) :
-    X.goto a pc = X.setAct a { act with pc := pc } := by
-  unfold State.goto; rw [h]
-
-theorem hpc_setAct {s X : State} {a : Nat} {v : Act}
-    (hX : ∀ b q, (X.pcAt b).holds q = (s.pcAt b).holds q) (ha : a < X.acts.length) :
-    ∀ b q, ((X.setAct a v).pcAt b).holds q = if a = b then v.pc.holds q else (s.pcAt b).holds q := by
-  intro b q
-  rw [pcAt_setAct]
-  by_cases hab : a = b
-  · subst hab; simp [ha]
-  · simp [hab, hX]
-
-/-- which queue a job-running context owns -/
-def ctxHolds (k : Pc) (q : Nat) : Ctx → Bool
-  | .caller _ => k.holds q
-  | .pool _ q' => q' == q
-  | .task _ _ q' => q' == q
-
-@[simp] theorem holds_ctxPending (j : Nat) (k : Pc) (c : Ctx) (q : Nat) : (ctxPending j k c).holds q = ctxHolds k q c := by
-  cases c <;> simp [ctxPending, Pc.holds, ctxHolds]
-
-@[simp] theorem holds_ctxReady (k : Pc) (c : Ctx) (q : Nat) : (ctxReady k c).holds q = ctxHolds k q c := by
-  cases c <;> simp [ctxReady, Pc.holds, ctxHolds]
-
-theorem holds_jobStart (j : Nat) (c : Ctx) (k : Pc) (q : Nat) : (Pc.jobStart j c k).holds q = ctxHolds k q c := by
-  cases c <;> simp [Pc.holds, ctxHolds]
-theorem holds_jobAwait (j : Nat) (c : Ctx) (k : Pc) (q : Nat) : (Pc.jobAwait j c k).holds q = ctxHolds k q c := by
-  cases c <;> simp [Pc.holds, ctxHolds]
-theorem holds_jobBodyDone (j : Nat) (c : Ctx) (k : Pc) (q : Nat) : (Pc.jobBodyDone j c k).holds q = ctxHolds k q c := by
-  cases c <;> simp [Pc.holds, ctxHolds]
-theorem holds_jobEnd (j : Nat) (c : Ctx) (k : Pc) (q : Nat) : (Pc.jobEnd j c k).holds q = ctxHolds k q c := by
-  cases c <;> simp [Pc.holds, ctxHolds]
-theorem holds_jobSignal (j : Nat) (c : Ctx) (k : Pc) (q : Nat) : (Pc.jobSignal j c k).holds q = ctxHolds k q c := by
-  cases c <;> simp [Pc.holds, ctxHolds]
-theorem holds_jobSigDrop (j : Nat) (c : Ctx) (k : Pc) (q : Nat) : (Pc.jobSigDrop j c k).holds q = ctxHolds k q c := by
-  cases c <;> simp [Pc.holds, ctxHolds]
-theorem holds_jobDrop (j : Nat) (c : Ctx) (k : Pc) (q : Nat) : (Pc.jobDrop j c k).holds q = ctxHolds k q c := by
-  cases c <;> simp [Pc.holds, ctxHolds]
-theorem holds_jobDropNotify (j : Nat) (c : Ctx) (k : Pc) (q : Nat) : (Pc.jobDropNotify j c k).holds q = ctxHolds k q c := by
-  cases c <;> simp [Pc.holds, ctxHolds]
-@[simp] theorem ctxHolds_caller (k : Pc) (q q' : Nat) : ctxHolds k q (.caller q') = k.holds q := rfl
-@[simp] theorem ctxHolds_pool (k : Pc) (q p q' : Nat) : ctxHolds k q (.pool p q') = (q' == q) := rfl
-@[simp] theorem ctxHolds_task (k : Pc) (q f l q' : Nat) : ctxHolds k q (.task f l q') = (q' == q) := rfl
-
-/-! #### `dequeue` -/
-theorem dequeue_acts (s : State) (q a : Nat) : (s.dequeue q a).1.acts = s.acts := by
-  unfold State.dequeue
-  split
-  · split
-    · split <;> simp
-    · rfl
-  · rfl
-
-theorem dequeue_holder (s : State) (q a : Nat) : (s.dequeue q a).1.holder = s.holder := by
-  unfold State.dequeue
-  split
-  · split
-    · split <;> simp
-    · rfl
-  · rfl
-
-theorem dequeue_qs_length (s : State) (q a : Nat) : (s.dequeue q a).1.qs.length = s.qs.length := by
-  unfold State.dequeue
-  split
-  · split
-    · split <;> simp [State.setQ]
-    · rfl
-  · rfl
-
-theorem dequeue_statesOk (s : State) (q a : Nat) : StatesOk s (s.dequeue q a).1 := by
-  unfold State.dequeue
-  split
-  · next v hv =>
-    split
-    · split
-      · next j rest hj =>
-        exact StatesOk.setQ (v := v) (v' := { v with jobs := rest }) hv (by simp [State.setQ]) id
-      · exact StatesOk.refl' _ _ rfl
-    · exact StatesOk.refl' _ _ rfl
-  · exact StatesOk.refl' _ _ rfl
-
-@[simp] theorem pcAt_dequeue (s : State) (q a c : Nat) : (s.dequeue q a).1.pcAt c = s.pcAt c := by
-  simp [State.pcAt, dequeue_acts]
-
-end Desync
-
-namespace Desync
-open Gen
-
-/-! #### tables preserve "held" when applied by somebody who is not the holder -/
-theorem syncDecide_held (st : QState) (e : Bool) : st.held = true → (syncDecide st e).1.held = true := by
-  cases st <;> cases e <;> simp [syncDecide, QState.held]
-theorem trySync_held (st : QState) (e : Bool) : st.held = true → (trySyncDecide st e).1.held = true := by
-  cases st <;> cases e <;> simp [trySyncDecide, QState.held]
-theorem claim_held (st : QState) : st.held = true → (claim st).1.held = true := by
-  cases st <;> simp [claim, QState.held]
-theorem nextToRun_held (st : QState) : st.held = true → (nextToRun st).1.held = true := by
-  cases st <;> simp [nextToRun, QState.held]
-theorem pollDecide_held (self : Nat) (st : QState) : st.held = true → (pollDecide self st).1.held = true := by
-  cases st <;> simp [pollDecide, QState.held]
-theorem runOnePending_held (st : QState) : st.held = true → (runOnePending st).1.held = true := by
-  cases st <;> simp [runOnePending, QState.held]
-theorem drainExit_held (st : QState) (e : Bool) : (drainExit st e).2 = false → st.held = true → (drainExit st e).1.held = true := by
-  cases st <;> cases e <;> simp [drainExit, QState.held]
-theorem drainPending_held (st : QState) : (drainPending st).2 = false → st.held = true → (drainPending st).1.held = true := by
-  cases st <;> simp [drainPending, QState.held]
-
-/-- a queue whose state is not one of the held states has no holder -/
-theorem HolderInv.free {s : State} (h : HolderInv s) {q : Nat} {v : JobQ} (hq : s.qs[q]? = some v)
-    (hst : v.state.held = false) : s.holder[q]? = some none := by
-  have hlt : q < s.holder.length := by rw [h.len]; exact lt_of_getElem?_some hq
-  have hx : s.holder[q]? = some s.holder[q] := List.getElem?_eq_getElem hlt
-  cases hv : s.holder[q] with
-  | none => rw [hx, hv]
-  | some b =>
-    have := h.held b q v (by rw [hx, hv]) hq
-    rw [hst] at this; cases this
-
-theorem HolderInv.mine {s : State} (h : HolderInv s) {a q : Nat} {act : Act} (ha : s.acts[a]? = some act)
-    (hh : act.pc.holds q = true) : s.holder[q]? = some (some a) ∧ ∃ v, s.qs[q]? = some v := by
-  have h1 := (h.iff a q).mp (by rw [pcAt_of ha]; exact hh)
-  refine ⟨h1, ?_⟩
-  have hlt : q < s.qs.length := by rw [← h.len]; exact lt_of_getElem?_some h1
-  exact ⟨s.qs[q], List.getElem?_eq_getElem hlt⟩
-
-/-- activity `a`, which held nothing, takes the run right of `q0` (a table granted it from a non-held state) -/
-theorem HolderInv.acquire {s X : State} {a q0 : Nat} {act v' : Act} {w w' : JobQ} (h : HolderInv s)
-    (ha : s.acts[a]? = some act) (hq : s.qs[q0]? = some w) (hfree : w.state.held = false)
-    (hold : ∀ q, act.pc.holds q = false) (hnew : ∀ q, v'.pc.holds q = (q0 == q))
-    (hX : ∀ b q, (X.pcAt b).holds q = (s.pcAt b).holds q) (hXlen : a < X.acts.length)
-    (hXho : X.holder = s.holder.set q0 (some a)) (hXqs : X.qs = s.qs.set q0 w') (hheld : w'.state.held = true) :
-    HolderInv (X.setAct a v') := by
-  have hq0 : q0 < s.qs.length := lt_of_getElem?_some hq
-  refine HolderInv.update (pc' := v'.pc) h q0 (some a) (hpc_setAct hX hXlen) (by simpa using hXho) (by simp [hXqs]) hq0
-    (Or.inr rfl) ?_ (Or.inl (h.free hq hfree)) ?_ ?_
-  · intro q
-    rw [hnew, pcAt_of ha, hold]
-    by_cases hqq : q = q0
-    · subst hqq; simp
-    · simp [hqq, Ne.symm hqq]
-  · intro _ u hu
-    simp only [qs_setAct, hXqs, List.getElem?_set, ↓reduceIte, hq0] at hu
-    cases hu; exact hheld
-  · intro q u hne hu
-    simp only [qs_setAct, hXqs, List.getElem?_set, Ne.symm hne, ↓reduceIte] at hu
-    exact ⟨u, hu, id⟩
-
-/-- activity `a`, which held exactly `q0`, gives the run right up (the queue's new state is arbitrary) -/
-theorem HolderInv.release {s X : State} {a q0 : Nat} {act v' : Act} {w' : JobQ} (h : HolderInv s)
-    (ha : s.acts[a]? = some act) (hold : ∀ q, act.pc.holds q = (q0 == q)) (hnew : ∀ q, v'.pc.holds q = false)
-    (hX : ∀ b q, (X.pcAt b).holds q = (s.pcAt b).holds q) (hXlen : a < X.acts.length)
-    (hXho : X.holder = s.holder.set q0 none) (hXqs : X.qs = s.qs.set q0 w') :
-    HolderInv (X.setAct a v') := by
-  obtain ⟨hmine, w, hw⟩ := h.mine (q := q0) ha (by rw [hold]; simp)
-  have hq0 : q0 < s.qs.length := lt_of_getElem?_some hw
-  refine HolderInv.update (pc' := v'.pc) h q0 none (hpc_setAct hX hXlen) (by simpa using hXho) (by simp [hXqs]) hq0
-    (Or.inl rfl) ?_ (Or.inr hmine) ?_ ?_
-  · intro q
-    rw [hnew, pcAt_of ha, hold]
-    by_cases hqq : q = q0
-    · subst hqq; simp
-    · simp [hqq, Ne.symm hqq]
-  · intro hc; cases hc
-  · intro q u hne hu
-    simp only [qs_setAct, hXqs, List.getElem?_set, Ne.symm hne, ↓reduceIte] at hu
-    exact ⟨u, hu, id⟩
-
-end Desync
-
-namespace Desync
-open Gen
-
-/-! #### facts about the tables at the points where the run right is granted -/
-theorem syncDecide_imm (st : QState) (e : Bool) (h : (syncDecide st e).2 = .immediate) : st.held = false ∧ (syncDecide st e).1.held = true := by
-  cases st <;> cases e <;> simp_all [syncDecide, QState.held]
-theorem syncDecide_drain (st : QState) (e : Bool) (h : (syncDecide st e).2 = .drain) : st.held = false ∧ (syncDecide st e).1.held = true := by
-  cases st <;> cases e <;> simp_all [syncDecide, QState.held]
-theorem trySync_imm (st : QState) (e : Bool) (h : (trySyncDecide st e).2 = .immediate) : st.held = false ∧ (trySyncDecide st e).1.held = true := by
-  cases st <;> cases e <;> simp_all [trySyncDecide, QState.held]
-theorem claim_true (st : QState) (h : (claim st).2 = true) : st.held = false ∧ (claim st).1.held = true := by
-  cases st <;> simp_all [claim, QState.held]
-theorem nextToRun_true (st : QState) (h : (nextToRun st).2 = true) : st.held = false ∧ (nextToRun st).1.held = true := by
-  cases st <;> simp_all [nextToRun, QState.held]
-theorem pollDecide_drain (self : Nat) (st : QState) (h : (pollDecide self st).2.1 = .drain) : st.held = false ∧ (pollDecide self st).1.held = true := by
-  cases st <;> simp_all [pollDecide, QState.held]
-  split at h <;> simp_all
-
-end Desync
-
-namespace Desync
-open Gen
-
-theorem StatesOk.of_qs_eq {s X Y : State} (h : X.qs = Y.qs) (hy : StatesOk s Y) : StatesOk s X := by
-  intro q v hv; rw [h] at hv; exact hy q v hv
-
-/-- `setQState` on the list of queues -/
-def setStateList (l : List JobQ) (q : Nat) (st : QState) : List JobQ :=
-  match l[q]? with
-  | some v => l.set q { v with state := st }
-  | none => l
-
-theorem qs_setQState' (s : State) (q : Nat) (st : QState) : (s.setQState q st).qs = setStateList s.qs q st := by
-  unfold State.setQState setStateList; split <;> simp_all [State.setQ]
-
-theorem pushFront_statesOk (s : State) (q j : Nat) : StatesOk s (s.pushFront q j) := by
-  unfold State.pushFront
-  split
-  · next v hv => exact StatesOk.setQ (v := v) (v' := { v with jobs := j :: v.jobs }) hv rfl id
-  · exact StatesOk.refl' _ _ rfl
-
-theorem pushBack_statesOk (s : State) (q j : Nat) : StatesOk s (s.pushBack q j) := by
-  unfold State.pushBack
-  split
-  · next v hv => exact StatesOk.setQ (v := v) (v' := { v with jobs := v.jobs ++ [j] }) hv rfl id
-  · exact StatesOk.refl' _ _ rfl
-
-@[simp] theorem qs_length_pushFront (s : State) (q j : Nat) : (s.pushFront q j).qs.length = s.qs.length := by
-  unfold State.pushFront; split <;> simp [State.setQ]
-@[simp] theorem qs_length_pushBack (s : State) (q j : Nat) : (s.pushBack q j).qs.length = s.qs.length := by
-  unfold State.pushBack; split <;> simp [State.setQ]
-@[simp] theorem qs_length_setQState (s : State) (q : Nat) (st : QState) : (s.setQState q st).qs.length = s.qs.length := by
-  unfold State.setQState; split <;> simp [State.setQ]
-
-theorem holds_pcAt_append {s X : State} {n : Act} (hacts : X.acts = s.acts ++ [n]) (hn : ∀ q, n.pc.holds q = false) :
-    ∀ b q, (X.pcAt b).holds q = (s.pcAt b).holds q := by
-  intro b q
-  simp only [State.pcAt, hacts]
-  by_cases hb : b < s.acts.length
-  · rw [List.getElem?_append_left hb]
-  · have hb' : s.acts.length ≤ b := Nat.le_of_not_lt hb
-    have h2 : s.acts[b]? = none := by simpa using hb'
-    rw [h2]
-    by_cases hbe : b = s.acts.length
-    · subst hbe; simp [hn, Pc.holds]
-    · have : (s.acts ++ [n])[b]? = none := by
-        simp; omega
-      rw [this]
-
-/-- release where the queue's state is overwritten with `setQState` -/
-theorem HolderInv.release' {s X : State} {a q0 : Nat} {act v' : Act} {st : QState} (h : HolderInv s)
-    (ha : s.acts[a]? = some act) (hold : ∀ q, act.pc.holds q = (q0 == q)) (hnew : ∀ q, v'.pc.holds q = false)
-    (hX : ∀ b q, (X.pcAt b).holds q = (s.pcAt b).holds q) (hXlen : a < X.acts.length)
-    (hXho : X.holder = s.holder.set q0 none) (hXqs : X.qs = setStateList s.qs q0 st) :
-    HolderInv (X.setAct a v') := by
-  obtain ⟨_, w, hw⟩ := h.mine (q := q0) ha (by rw [hold]; simp)
-  refine HolderInv.release (w' := { w with state := st }) h ha hold hnew hX hXlen hXho ?_
-  rw [hXqs]; simp [setStateList, hw]
-
-end Desync
-
-namespace Desync
-open Gen
-
-/-- release written the way the runners do it: `state := st` then hand the run right back -/
-theorem HolderInv.release_idle {s Y : State} {a q0 : Nat} {act v' : Act} {st : QState} (h : HolderInv s)
-    (ha : s.acts[a]? = some act) (hold : ∀ q, act.pc.holds q = (q0 == q)) (hnew : ∀ q, v'.pc.holds q = false)
-    (hY : ∀ b q, (Y.pcAt b).holds q = (s.pcAt b).holds q) (hYlen : a < Y.acts.length)
-    (hYho : Y.holder = s.holder) (hYqs : Y.qs = s.qs) :
-    HolderInv (((Y.setQState q0 st).setHolder q0 none).setAct a v') := by
-  refine HolderInv.release' (st := st) h ha hold hnew ?_ ?_ ?_ ?_
-  · intro b q; simpa using hY b q
-  · simpa using hYlen
-  · simp [hYho]
-  · simp [qs_setQState', hYqs]
-
-end Desync
+/-
+The holder invariant is preserved by every internal step (`stepAct`).
+-/
+import DesyncModel.Inv.HolderLemmas
 
 namespace Desync
 open Gen
